@@ -406,20 +406,22 @@ def _rule16(ctx, rep, R):
         okret = [bi for bi, b in enumerate(P.blocks) for s in b["s"] if s[0] == "=" and s[1] == [0] and s[2][0] == "agg" and s[2][1][0] == "adt" and s[2][1][2] == "Ok"]
         rep.check(R, "16/blob::packer::FileWriterHandle::<BE>::process/order", okret and not any(b in reach for b in okret), where=P.loc(),
                   what="process returns Ok(index entry) only after write_bytes(Pack) succeeded")
-    # (b) FileWriterHandle::index is called once, from the Actor::new pipeline, on the `?` of the process result
+    # (b) the written pack is registered once, from the Actor::new pipeline, on the `?` of the process result: through
+    # FileWriterHandle::index or, when that one-liner is inlined, by Indexer::add directly in the pipeline closure
     IDX = call_pred(r"^rustic_core::blob::packer::FileWriterHandle::<BE>::index$")
+    ADDI = call_pred(r"^rustic_core::index::indexer::Indexer::<BE>::add$")
     callers = []
     for b in prog.by_crate["rustic_core"]:
         for bb, t in b.calls():
-            if IDX(t):
+            if IDX(t) or (ADDI(t) and b.path.startswith("rustic_core::blob::packer::Actor::new::")):
                 callers.append((b, bb, t))
     rep.check(R, "16/index-callers", len(callers) == 1 and callers[0][0].path.startswith("rustic_core::blob::packer::Actor::new::"), where=callers[0][0].loc() if callers else "",
-              what=f"FileWriterHandle::index has exactly one call site, inside the Actor::new pipeline ({[fn_key(c[0]) for c in callers]})")
+              what=f"a written pack is handed to the indexer at exactly one site, inside the Actor::new pipeline ({[fn_key(c[0]) for c in callers]})")
     if len(callers) == 1:
         b, bb, t = callers[0]
         org = flow.origins(b, op_place(t["args"][1])) if op_place(t["args"][1]) else []
         from_param = bool(org) and all(o.kind == "arg" and o.data[0] == 2 for o in org)
-        has_try = any(flow.TRY_BRANCH.search(callee(tt)) for _, tt in b.calls())
+        has_try = any(flow.TRY_BRANCH.search(callee(tt)) for _, tt in b.calls() if "callee" in tt)
         pty = b.locals[2] if len(b.locals) > 2 else ""
         rep.check(R, "16/index-arg", from_param and has_try and "Result<" in pty and "IndexPack" in pty, where=where(b, bb),
                   what="the entry handed to the indexer is the `?` of the pipeline item (RusticResult<IndexPack> produced by process): a failed pack write is never indexed")
